@@ -809,6 +809,7 @@ type Frame struct {
 	closCells       map[*ssa.Alloc]*ssa.MakeClosure // locals holding a closure (f := func(){...})
 	ptrCells        map[*ssa.Alloc]Addr             // locals that hold the address of a slice element / field (the p := &xs[i] idiom)
 	inCommute       bool
+	elemFrozenBelow string       // allocation bound below which no backing array may be written (inside a "modifies nothing" loop)
 	pendingAddrArgs map[int]Addr // arguments of the call being dispatched that are addresses (for inlining)
 	sortedUseBad    bool
 	forcedKey       string // commutes check: the key the next map-range Next must yield
@@ -890,6 +891,14 @@ func (fr *Frame) setElemHeap(st *State, key string, elem types.Type, old, newTer
 	sq, kq := fmt.Sprintf("s_q%d", c.n), fmt.Sprintf("k_q%d", c.n)
 	fr.assumeQ(st, fmt.Sprintf("(forall ((%s Slice) (%s Int)) (! (=> (not (= (sl.arr %s) %s)) (= (%s %s %s %s) (%s %s %s %s))) :pattern ((%s %s %s %s))))",
 		sq, kq, sq, changedRef, ef, name, sq, kq, ef, old, sq, kq, ef, name, sq, kq))
+	if fr.fc != nil && fr.fc.ForwardFrames {
+		// opt-in ("option forwardframes"): the same frame fact also fires on an element known in the old heap, so that a
+		// witness found before an unrelated array was written is still a witness afterwards
+		c.n++
+		sq2, kq2 := fmt.Sprintf("s_q%d", c.n), fmt.Sprintf("k_q%d", c.n)
+		fr.assumeQ(st, fmt.Sprintf("(forall ((%s Slice) (%s Int)) (! (=> (not (= (sl.arr %s) %s)) (= (%s %s %s %s) (%s %s %s %s))) :pattern ((%s %s %s %s))))",
+			sq2, kq2, sq2, changedRef, ef, name, sq2, kq2, ef, old, sq2, kq2, ef, old, sq2, kq2))
+	}
 	st.heap[key] = name
 }
 
@@ -921,6 +930,9 @@ func reqLabel(c Clause, k int) string {
 func (fr *Frame) elemWritePerm(a Addr) string {
 	if fr.writeAll {
 		return "true"
+	}
+	if fr.elemFrozenBelow != "" {
+		return fmt.Sprintf("(> %s %s)", a.Ref, fr.elemFrozenBelow)
 	}
 	alts := []string{fmt.Sprintf("(> %s %s)", a.Ref, fr.allocTerm(fr.entry))}
 	for _, w := range fr.elemWrite {
@@ -1595,7 +1607,7 @@ func (fr *Frame) run(st0 *State) {
 			}
 			var lm *loopMod
 			if fr.fc != nil && (len(fr.fc.LoopMods[ord]) > 0 || fr.fc.LoopModNone[ord]) {
-				lm = &loopMod{alloc: preAlloc}
+				lm = &loopMod{alloc: preAlloc, noElems: fr.fc.LoopModNone[ord]}
 				lm.refs, lm.inner = fr.evalModMaps(fr.fc.LoopMods[ord], preState, fr.ghost, false)
 				for blk := range body {
 					fr.loopOf[blk] = append(fr.loopOf[blk], lm)
@@ -1645,6 +1657,10 @@ func (fr *Frame) run(st0 *State) {
 					}
 					if lm != nil && !strings.HasPrefix(k, "E:") {
 						fr.havocHeapKey(st, k, preAlloc, lm.refs, lm.inner, nil, "hvR")
+					} else if lm != nil && lm.noElems {
+						// "loop N modifies nothing": every backing array that existed at the loop head keeps its elements
+						// (writes inside the loop are held to that: elemWritePerm)
+						fr.havocHeapKey(st, k, preAlloc, nil, nil, nil, "hvR")
 					} else {
 						var arrs []string
 						for _, w := range fr.elemWrite {
@@ -1722,6 +1738,12 @@ func (fr *Frame) run(st0 *State) {
 			}
 		}
 		// execute
+		fr.elemFrozenBelow = ""
+		for _, l := range fr.loopOf[b] {
+			if l.noElems {
+				fr.elemFrozenBelow = l.alloc // inside a loop that modifies nothing: only arrays allocated in the loop may be written
+			}
+		}
 		alive := true
 		for _, in := range b.Instrs {
 			if !fr.step(st, in) {
@@ -3135,6 +3157,52 @@ func (fr *Frame) call(st *State, x *ssa.Call) bool {
 		// s[i] before the sort reach the witness index of the permutation)
 		fr.assume(st, fmt.Sprintf("(forall ((%s Int)) (! (= (sqat_%s %s %s) (%s %s %s %s)) :pattern ((sqat_%s %s %s))))",
 			q, c.sortOf(st2), before.T, q, ef, arr, sv.T, q, c.sortOf(st2), before.T, q))
+		return true
+	case "sort.Slice", "sort.SliceStable":
+		// in place, by a comparator that is not executed: afterwards the slice holds some permutation of what it held
+		// (every new element is an old one and every old element is still there; which order is not known)
+		mi, isMI := x.Call.Args[0].(*ssa.MakeInterface)
+		if !isMI {
+			break
+		}
+		sl, isSl := mi.X.Type().Underlying().(*types.Slice)
+		if !isSl {
+			break
+		}
+		sv := fr.val(mi.X)
+		fr.obligeAt(st, "frame.write_elem", "call", fmt.Sprintf("(or (= (sl.len %s) 0) %s)", sv.T, fr.elemWritePerm(Addr{Ref: fmt.Sprintf("(sl.arr %s)", sv.T)})), x.Pos())
+		key, arr := c.elemHeap(st, sl.Elem())
+		es := c.sortOf(sl.Elem())
+		inner := c.fresh("permutedinner", fmt.Sprintf("(Array Int %s)", es))
+		c.n++
+		n := c.n
+		src, dst := fmt.Sprintf("permSrc_%d", n), fmt.Sprintf("permDst_%d", n)
+		c.defs = append(c.defs, fmt.Sprintf("(declare-fun %s (Int) Int)", src), fmt.Sprintf("(declare-fun %s (Int) Int)", dst))
+		fr.setElemHeap(st, key, sl.Elem(), arr, fmt.Sprintf("(store %s (sl.arr %s) %s)", arr, sv.T, inner), fmt.Sprintf("(sl.arr %s)", sv.T))
+		ef := c.eltFn(sl.Elem())
+		name := st.heap[key]
+		q := fmt.Sprintf("i_q%d", n)
+		fr.assume(st, fmt.Sprintf("(forall ((%s Int)) (! (=> (and (<= 0 %s) (< %s (sl.len %s))) (and (<= 0 (%s %s)) (< (%s %s) (sl.len %s)) (= (%s %s %s %s) (%s %s %s (%s %s))))) :pattern ((%s %s %s %s))))",
+			q, q, q, sv.T, src, q, src, q, sv.T, ef, name, sv.T, q, ef, arr, sv.T, src, q, ef, name, sv.T, q))
+		fr.assume(st, fmt.Sprintf("(forall ((%s Int)) (! (=> (and (<= 0 %s) (< %s (sl.len %s))) (and (<= 0 (%s %s)) (< (%s %s) (sl.len %s)) (= (%s %s %s %s) (%s %s %s (%s %s))))) :pattern ((%s %s %s %s))))",
+			q, q, q, sv.T, dst, q, dst, q, sv.T, ef, arr, sv.T, q, ef, name, sv.T, dst, q, ef, arr, sv.T, q))
+		{
+			// the same two facts over the sequence snapshots of the slice (before / after), for clauses stated with seq(...)
+			st2 := &seqType{sl.Elem()}
+			sn := c.sortOf(st2)
+			seqOld := fmt.Sprintf("(mk-%s (select %s (sl.arr %s)) (sl.off %s) (sl.len %s))", sn, arr, sv.T, sv.T, sv.T)
+			seqNew := fmt.Sprintf("(mk-%s (select %s (sl.arr %s)) (sl.off %s) (sl.len %s))", sn, name, sv.T, sv.T, sv.T)
+			fr.assume(st, fmt.Sprintf("(forall ((%s Int)) (! (=> (and (<= 0 %s) (< %s (sl.len %s))) (= (sqat_%s %s %s) (sqat_%s %s (%s %s)))) :pattern ((sqat_%s %s %s))))",
+				q, q, q, sv.T, sn, seqNew, q, sn, seqOld, src, q, sn, seqNew, q))
+			fr.assume(st, fmt.Sprintf("(forall ((%s Int)) (! (=> (and (<= 0 %s) (< %s (sl.len %s))) (= (sqat_%s %s %s) (sqat_%s %s (%s %s)))) :pattern ((sqat_%s %s %s))))",
+				q, q, q, sv.T, sn, seqOld, q, sn, seqNew, dst, q, sn, seqOld, q))
+		}
+		// the rest of the backing array is untouched
+		c.n++
+		sq, kq := fmt.Sprintf("s_q%d", c.n), fmt.Sprintf("k_q%d", c.n)
+		fr.assume(st, fmt.Sprintf("(forall ((%s Slice) (%s Int)) (! (=> (and (= (sl.arr %s) (sl.arr %s)) (or (< (+ (sl.off %s) %s) (sl.off %s)) (>= (+ (sl.off %s) %s) (+ (sl.off %s) (sl.len %s))))) (= (%s %s %s %s) (%s %s %s %s))) :pattern ((%s %s %s %s))))",
+			sq, kq, sq, sv.T, sq, kq, sv.T, sq, kq, sv.T, sv.T, ef, name, sq, kq, ef, arr, sq, kq, ef, name, sq, kq))
+		c.note("%s: sort.Slice is modelled as an arbitrary in-place permutation (the comparator is not executed)", fr.fname)
 		return true
 	case "strconv.FormatUint", "strconv.Itoa", "strconv.FormatInt":
 		// decimal rendering is injective: modelled as an uninterpreted function with a left inverse
